@@ -351,12 +351,12 @@ func kindOnly(s string) string {
 func init() {
 	core.Register(&core.Property{
 		ID: "C15", Engine: "G", Level: "exploration", Bubble: true,
-		Rule: "each run (in an isolated worker process whose death is attributed to the run it announced): a real BitcoinNode before the handshake, during verification or ready receives 1-4 tape-generated hostile byte strings (noise, right magic + noise, bad checksum, declared length too long/short, counts far beyond the payload, extended header with lengths 2^48..2^64-1, headers with every class of bits exponent/mantissa and timestamps, hostile tx encodings, truncation, garbage command bytes, flipped byte in valid messages) fragmented by the tape, then the peer closes; the process must survive, Run must return within 5 simulated minutes, the header repository must be intact and a second well-behaved connection must verify and answer a ping; production header repository configuration (difficulty and split protection on); non-trivial = every run; distinct = distinct hash of the canonical event log",
+		Rule: "each run (in an isolated worker process whose death is attributed to the run it announced): a real BitcoinNode before the handshake, during verification or ready receives 1-4 tape-generated hostile byte strings (noise, right magic + noise, bad checksum, declared length too long/short, counts far beyond the payload, extended header with lengths 2^48..2^64-1, headers with every class of bits exponent/mantissa and timestamps, hostile tx encodings, truncation, garbage command bytes, flipped byte in valid messages) fragmented by the tape, in half of the ready-stage runs a block is requested from the peer first and the hostile strings include block messages with the requested header and a hostile transaction stream (undecodable tx, cut mid-tx, fewer/more txs than announced, random bytes); then the peer closes; the process must survive, Run must return within 5 simulated minutes, the header repository must be intact and a second well-behaved connection must verify and answer a ping; production header repository configuration (difficulty and split protection on); non-trivial = every run; distinct = distinct hash of the canonical event log",
 		Real: nodeReal, Stub: nodeStub,
-		Assumptions: []string{"declared lengths are either small or at least 2^48, so that the outcome never depends on how much memory this machine happens to have",
+		Assumptions: []string{"generated declared lengths are either small or at least 2^48; desynchronised streams can still produce mid-size ones, so workers run under RLIMIT_AS 3 GiB: such an allocation fails at once inside the dependency (known findings KF19-KF21, KF31) instead of exhausting this machine",
 			"a worker process that dies is re-run alone from the regenerated PRNG stream of that run to confirm and minimise the crash"},
-		FaultKinds:   []string{"fragmentation", "delivery-delay", "hostile:random-bytes", "hostile:magic+random", "hostile:bad-checksum", "hostile:length-too-long", "hostile:length-too-short", "hostile:count-huge", "hostile:extmsg-length-absurd", "hostile:headers-bits", "hostile:tx-input-count-huge", "hostile:tx-script-length-beyond-payload", "hostile:truncated", "hostile:block-tx-count-huge", "hostile:command-garbage", "hostile:version-mangled", "hostile:inv-type-garbage", "hostile:flipped-byte"},
-		ProbeNames:   []string{"stage:before-handshake", "stage:during-verification", "stage:ready", "run-returned", "second-connection-ok"},
+		FaultKinds:   []string{"fragmentation", "delivery-delay", "hostile:random-bytes", "hostile:magic+random", "hostile:bad-checksum", "hostile:length-too-long", "hostile:length-too-short", "hostile:count-huge", "hostile:extmsg-length-absurd", "hostile:headers-bits", "hostile:tx-input-count-huge", "hostile:tx-script-length-beyond-payload", "hostile:truncated", "hostile:block-tx-count-huge", "hostile:command-garbage", "hostile:version-mangled", "hostile:inv-type-garbage", "hostile:flipped-byte", "hostile:requested-block:tx-input-count-huge", "hostile:requested-block:tx-script-length-beyond-payload", "hostile:requested-block:cut-mid-tx", "hostile:requested-block:fewer-txs-than-announced", "hostile:requested-block:random-tx-bytes"},
+		ProbeNames:   []string{"stage:before-handshake", "stage:during-verification", "stage:ready", "run-returned", "second-connection-ok", "block-requested", "requested-block-streamed-to-handler"},
 		Run:          runC15,
 		QuickSeconds: 20, ThoroughSeconds: 600, MinRuns: 300, BatchSize: 25, RunTimeoutSeconds: 180, DryScript: true, MemLimitMB: 3072,
 	})
